@@ -402,6 +402,34 @@ theorem C05_fn_counterexample :
     writtenByCode ⟨false, true⟩ .classBodyLambda = false ∧ FnOrigin.classBodyLambda.resolvableByName = false := by
   decide
 
+/-- LOADS ARE INDEPENDENT OF EARLIER LOADS: without a process-level table every by-code function
+comes back as its own JSON says — its own defaults — whatever was loaded before in the same value,
+from other files, from earlier jsonl records. -/
+theorem C05_fn_load_fresh : ∀ (js : List FnJ) (table : List (Nat × FnJ)),
+    loadAll false table js = (table, js) := by
+  intro js
+  induction js with
+  | nil => intro t; rfl
+  | cons j js ih => intro t; simp [loadAll, loadFn, ih]
+
+/-- Generated obligation: the current `_function_from_json` keeps no such table. -/
+theorem C05_fn_load_table : fnLoadMemo = false := by decide
+
+/-- With a table keyed by the code payload alone (seeded change C05-10) functions that share a code
+object but differ in defaults — `[lambda x, k=k: x * k for k in (2, 3)]` — all come back with the
+first one's defaults. -/
+theorem C05_fn_load_counterexample :
+    (loadAll true [] [⟨7, [2]⟩, ⟨7, [3]⟩]).2 = [⟨7, [2]⟩, ⟨7, [2]⟩] := by decide
+
+/-- CLASS METHODS: a class method comes back bound to the same class exactly when the written name
+is that of the class it is bound to, or the method is not inherited. The current writer uses the
+function's `__qualname__` (`fnMethodNamesBound`, generated): `SubMaker.make` loads back as
+`Maker.make` (F377; fixes/C05-F377.patch names `f.__self__`). -/
+theorem C05_method_roundtrip (namesBound : Bool) (m : MethodRef) :
+    loadMethod m (writeMethod namesBound m) = m ↔ (namesBound = true ∨ m.defining = m.bound) := by
+  obtain ⟨d, b, n⟩ := m
+  cases namesBound <;> simp [loadMethod, writeMethod]
+
 /-! ## `pg.DNA` (compact JSON form, root metadata) -/
 
 theorem dna_keys_ne :
@@ -993,6 +1021,15 @@ theorem C05_jsonl_roundtrip (dumps : JS → List Char) (loads : List Char → Op
     obtain ⟨t, _, rfl⟩ := List.mem_map.mp hr
     exact hnl _
 
+/-- … and the side condition on `ap` is needed: `pg.open_jsonl` reads with a bare `from_json_str`
+(`ap = false`), so a PARTIAL object that was added is refused on the way back (TypeError), where
+`pg.load` (`ap = true`) returns it (F375; fixes/C05-F375.patch makes the reader pass `allow_partial`). -/
+theorem C05_jsonl_partial_counterexample :
+    let t : Tree := .obj "P".toList [(['x'], .leaf .missing), (['k'], .leaf (.str ['r']))]
+    fromJsonStr (Text := JS) some envP false (toJsonStr id envP t) = .error .type ∧
+    fromJsonStr (Text := JS) some envP true (toJsonStr id envP t) = .ok t := by
+  constructor <;> rfl
+
 /-- The same without the newline exclusion … -/
 def C05_records_Full : Prop :=
   ∀ rs : List (List Char), readLines (linesOf rs) = rs
@@ -1064,6 +1101,37 @@ theorem C05_history (env : ClassEnv) (hwf : env.WF = true) :
       · exact C05_roundtrip_opts o env hwf true _ hc he (.inl rfl)
       · exact ih t r hr hc he
     | put t' => exact ih t' r hr hc he
+
+/-! ## Several in-memory mounts: one store per mount -/
+
+/-- OPERATIONS ON ONE MOUNT NEVER CHANGE WHAT THE OTHER MOUNT HOLDS OR RETURNS: in any interleaving
+of operations on two `MemoryFileSystem` mounts, each mount ends in the state, and returns the
+outputs, of its own operations run alone (whatever the paths — in particular the same
+mount-relative paths on both). -/
+theorem C05_mounts_independent (cfg : FsCfg) : ∀ (ms : List MOp) (s : Dir × Dir),
+    (mrun cfg s ms).1.1 = (run cfg s.1 (opsOf false ms)).1 ∧
+    (mrun cfg s ms).1.2 = (run cfg s.2 (opsOf true ms)).1 ∧
+    outsOf false (mrun cfg s ms).2 = (run cfg s.1 (opsOf false ms)).2 ∧
+    outsOf true (mrun cfg s ms).2 = (run cfg s.2 (opsOf true ms)).2 := by
+  intro ms
+  induction ms with
+  | nil => intro s; exact ⟨rfl, rfl, rfl, rfl⟩
+  | cons m ms ih =>
+    intro s
+    obtain ⟨b, op⟩ := m
+    cases b with
+    | false =>
+      obtain ⟨h1, h2, h3, h4⟩ := ih ((step cfg s.1 op).1, s.2)
+      simp only [mrun, mstep, opsOf, outsOf, List.filter, List.map, run, Bool.false_eq_true, if_false,
+        beq_self_eq_true] at h1 h2 h3 h4 ⊢
+      refine ⟨h1, h2, ?_, h4⟩
+      rw [h3]
+    | true =>
+      obtain ⟨h1, h2, h3, h4⟩ := ih (s.1, (step cfg s.2 op).1)
+      simp only [mrun, mstep, opsOf, outsOf, List.filter, List.map, run, if_true,
+        beq_self_eq_true] at h1 h2 h3 h4 ⊢
+      refine ⟨h1, h2, h3, ?_⟩
+      rw [h4]
 
 /-! ## Record sequences in memory (`.mem`, `.mem@N`): a read returns fresh values -/
 
